@@ -11,6 +11,9 @@ use serde_json::json;
 #[derive(Clone, Debug, Serialize, Deserialize)]
 pub struct Case {
     pub k4: bool,
+    /// arity 8 (three predicate rows per decision); overrides `k4`
+    #[serde(default)]
+    pub k8: bool,
     pub f: TreeSpec,
     pub g: TreeSpec,
     pub a: Aff,
@@ -28,18 +31,19 @@ pub fn tree_params_strategy(k: usize, in_dim: usize, out_dim: usize, max_depth: 
 
 fn strategy(tier: Tier) -> BoxedStrategy<Case> {
     let maxd = tier.pick(3u32, 4u32);
-    (any::<bool>(), sized(3, 5), sized(3, 5), sized(3, 4), 1usize..=3)
-        .prop_flat_map(move |(k4, n, m, p, q)| {
-            let k = if k4 { 4 } else { 2 };
+    (prop_oneof![10 => Just(2usize), 9 => Just(4usize), 1 => Just(8usize)], sized(3, 5), sized(3, 5), sized(3, 4), 1usize..=3)
+        .prop_flat_map(move |(k, n, m, p, q)| {
+            // arity 8: up to 64 terminals per tree at depth 2 already
+            let maxd = if k == 8 { 2 } else { maxd };
             (
-                Just(k4),
+                Just(k),
                 tree_params_strategy(k, n, m, maxd).prop_flat_map(tree_spec),
                 tree_params_strategy(k, m, p, maxd).prop_flat_map(tree_spec),
                 aff(q, m),
                 proptest::collection::vec(point_spec(n), 6..12),
             )
         })
-        .prop_map(|(k4, f, g, a, points)| Case { k4, f, g, a, points })
+        .prop_map(|(k, f, g, a, points)| Case { k4: k == 4, k8: k == 8, f, g, a, points })
         .prop_flat_map(|c| (Just(c), 0u8..48, 20i8..=40))
         .prop_map(|(mut c, regime, e)| {
             // correlated scaling regimes (~4 % of the cases): every terminal map of f and every
@@ -179,8 +183,10 @@ impl Property for C02 {
         strategy(tier)
     }
     fn run(&self, case: &Case, ctx: &mut Ctx) -> CaseResult {
-        ctx.class(if case.k4 { "k4" } else { "k2" });
-        if case.k4 {
+        ctx.class(if case.k8 { "k8" } else if case.k4 { "k4" } else { "k2" });
+        if case.k8 {
+            run_k::<8>(case, ctx)
+        } else if case.k4 {
             run_k::<4>(case, ctx)
         } else {
             run_k::<2>(case, ctx)
